@@ -81,6 +81,7 @@ func checkC16(c *core.Ctx) {
 	r3 := c.Rule("R16.3", "T", "channel closed only by defer in the goroutine body; goroutine started only under c == nil after storing c")
 	r4 := c.Rule("R16.4", "T", "sends are blocking selects with ctx.Done(); every cycle through the read re-tests the context")
 	r5 := c.Rule("R16.5", "T", "NextPacket: error returned, bytes/decoder/options passed through, CaptureInfo stored, Truncated from CaptureLength < Length")
+	concatAdvance(c, c.Rule("R16.8", "T", "the concatenated source list is advanced relative to its current contents"))
 	r7 := c.Rule("R16.7", "T", "end-of-input from a PacketDataSource is recognised with errors.Is (sources may wrap io.EOF), never by comparing the error value with io.EOF")
 	{
 		n := 0
@@ -819,4 +820,80 @@ func checkNextPacket(c *core.Ctx, r *core.Rule, np *ssa.Function) {
 	default:
 		r.Undecided(key+"truncated-set", p.InstrPos(trStore), "value stored to Truncated not of a recognised form")
 	}
+}
+
+// concatAdvance (R16.8): ConcatFinitePacketDataSources keeps the sources that
+// are still to be read in a slice behind a pointer and drops exhausted ones by
+// re-slicing it.  The re-slice must be relative to the list as it is at that
+// moment: either the constant one-element pop of the list whose element 0 was
+// just asked, or an index obtained from that same, unmodified list.  An index
+// that counts positions of an earlier snapshot, applied to a list the loop has
+// already shortened, skips sources that were never read.
+func concatAdvance(c *core.Ctx, r *core.Rule) {
+	p := c.P
+	fn := p.Func("", "concat.ReadPacketData")
+	if fn == nil || len(fn.Blocks) == 0 {
+		r.Missing("gopacket.(*concat).ReadPacketData", "not found")
+		return
+	}
+	cell := ssa.Value(fn.Params[0])
+	n := 0
+	core.Instrs(fn, func(ins ssa.Instruction) {
+		st, ok := ins.(*ssa.Store)
+		if !ok || st.Addr != cell {
+			return
+		}
+		n++
+		key := fmt.Sprintf("%s/advance#%d", core.FnKey(fn), n)
+		sl, ok := st.Val.(*ssa.Slice)
+		if !ok {
+			r.Undecided(key, p.InstrPos(ins), "the list is replaced by something that is not a re-slice")
+			return
+		}
+		ld, isLd := sl.X.(*ssa.UnOp)
+		if !isLd || ld.Op != token.MUL || ld.X != cell {
+			r.Undecided(key, p.InstrPos(ins), "re-slice of something other than the current list")
+			return
+		}
+		if k, ok := core.ConstInt(sl.Low); ok && k == 1 && sl.High == nil {
+			r.OK(key, p.InstrPos(ins), "pops one element of the current list")
+			return
+		}
+		// a variable low bound: is it an index over another load of the list while the list is stored in a loop?
+		inLoop := false
+		b := st.Block()
+		for _, blk := range fn.Blocks {
+			for _, pr := range blk.Preds {
+				if blk.Dominates(pr) && blk.Dominates(b) && reaches(b, pr) {
+					inLoop = true
+				}
+			}
+		}
+		if inLoop {
+			r.Violate(key, p.InstrPos(ins), "inside the loop the list of remaining sources is cut at a position counted on an earlier snapshot of the list, although the loop itself has already shortened the list: after two exhausted sources in one call the cut lands too far and sources that were never read are dropped (or the slice bound is out of range)", nil)
+			return
+		}
+		r.Undecided(key, p.InstrPos(ins), "variable cut outside a loop")
+	})
+	if n < 1 {
+		r.Missing("gopacket.(*concat).ReadPacketData/advance", "no store to the source list found")
+	}
+}
+
+func reaches(from, to *ssa.BasicBlock) bool {
+	seen := map[*ssa.BasicBlock]bool{}
+	work := []*ssa.BasicBlock{from}
+	for len(work) > 0 {
+		x := work[len(work)-1]
+		work = work[:len(work)-1]
+		if x == to {
+			return true
+		}
+		if seen[x] {
+			continue
+		}
+		seen[x] = true
+		work = append(work, x.Succs...)
+	}
+	return false
 }
